@@ -245,7 +245,8 @@ class SimpleARTMAP(BaseARTMAP):
             from tqdm import tqdm  # noqa: F401
 
         # Check that X and y have correct shape
-        SimpleARTMAP.validate_data(self, X, y)
+        # y as validated: a column vector (n, 1) becomes the 1-D sequence of its targets
+        X, y = SimpleARTMAP.validate_data(self, X, y)
         # Store the classes seen during fit
         self.classes_ = unique_labels(y)
         self.labels_ = np.array(y)
@@ -301,7 +302,8 @@ class SimpleARTMAP(BaseARTMAP):
             The partially fitted model.
 
         """
-        SimpleARTMAP.validate_data(self, X, y)
+        # y as validated: a column vector (n, 1) becomes the 1-D sequence of its targets
+        X, y = SimpleARTMAP.validate_data(self, X, y)
         if not hasattr(self, "labels_"):
             labels = np.array(y)
             # the classes seen so far, as fit records them
